@@ -97,13 +97,16 @@ struct PreReactWrapperT<TRegion, BottomUp> {
 			HeadState& headState = static_cast<HeadState&>(region);
 			SubStates& subStates = static_cast<SubStates&>(region);
 
-			const TaskStatus h =
+			HFSM2_IF_PLANS(region. subStatus(control) |=)
 				subStates.widePreReact(control, event, active);
-			HFSM2_IF_PLANS(region. subStatus(control) |= h);
 
-			if (!control._consumed)
-				HFSM2_IF_PLANS(region.headStatus(control) |=)
-					headState.deepPreReact(control, event);
+			// like the top-down order, report the head's own result to the enclosing region
+			TaskStatus h;
+
+			if (!control._consumed) {
+				h = headState.deepPreReact(control, event);
+				HFSM2_IF_PLANS(region.headStatus(control) |= h);
+			}
 
 			return h;
 		} else
@@ -124,13 +127,16 @@ struct PreReactWrapperT<TRegion, BottomUp> {
 			HeadState& headState = static_cast<HeadState&>(region);
 			SubStates& subStates = static_cast<SubStates&>(region);
 
-			const TaskStatus h =
+			HFSM2_IF_PLANS(region. subStatus(control) |=)
 				subStates.widePreReact(control, event);
-			HFSM2_IF_PLANS(region. subStatus(control) |= h);
 
-			if (!control._consumed)
-				HFSM2_IF_PLANS(region.headStatus(control) |=)
-					headState.deepPreReact(control, event);
+			// like the top-down order, report the head's own result to the enclosing region
+			TaskStatus h;
+
+			if (!control._consumed) {
+				h = headState.deepPreReact(control, event);
+				HFSM2_IF_PLANS(region.headStatus(control) |= h);
+			}
 
 			return h;
 		} else
@@ -236,13 +242,16 @@ struct ReactWrapperT<TRegion, BottomUp> {
 			HeadState& headState = static_cast<HeadState&>(region);
 			SubStates& subStates = static_cast<SubStates&>(region);
 
-			const TaskStatus h =
+			HFSM2_IF_PLANS(region. subStatus(control) |=)
 				subStates.wideReact(control, event, active);
-			HFSM2_IF_PLANS(region. subStatus(control) |= h);
 
-			if (!control._consumed)
-				HFSM2_IF_PLANS(region.headStatus(control) |=)
-					headState.deepReact(control, event);
+			// like the top-down order, report the head's own result to the enclosing region
+			TaskStatus h;
+
+			if (!control._consumed) {
+				h = headState.deepReact(control, event);
+				HFSM2_IF_PLANS(region.headStatus(control) |= h);
+			}
 
 			return h;
 		} else
@@ -263,13 +272,16 @@ struct ReactWrapperT<TRegion, BottomUp> {
 			HeadState& headState = static_cast<HeadState&>(region);
 			SubStates& subStates = static_cast<SubStates&>(region);
 
-			const TaskStatus h =
+			HFSM2_IF_PLANS(region. subStatus(control) |=)
 				subStates.wideReact(control, event);
-			HFSM2_IF_PLANS(region. subStatus(control) |= h);
 
-			if (!control._consumed)
-				HFSM2_IF_PLANS(region.headStatus(control) |=)
-					headState.deepReact(control, event);
+			// like the top-down order, report the head's own result to the enclosing region
+			TaskStatus h;
+
+			if (!control._consumed) {
+				h = headState.deepReact(control, event);
+				HFSM2_IF_PLANS(region.headStatus(control) |= h);
+			}
 
 			return h;
 		} else
@@ -379,16 +391,16 @@ struct PostReactWrapperT<TRegion, BottomUp> {
 			HeadState& headState = static_cast<HeadState&>(region);
 			SubStates& subStates = static_cast<SubStates&>(region);
 
-			HFSM2_IF_PLANS(region.headStatus(control) |=)
+			// like the top-down order, report the head's own result to the enclosing region
+			const TaskStatus h =
 				headState.deepPostReact(control, event);
+			HFSM2_IF_PLANS(region.headStatus(control) |= h);
 
-			if (control._consumed == false) {
-				const TaskStatus h =
+			if (control._consumed == false)
+				HFSM2_IF_PLANS(region. subStatus(control) |=)
 					subStates.widePostReact(control, event, active);
-				HFSM2_IF_PLANS(region. subStatus(control) |= h);
 
-				return h;
-			}
+			return h;
 		}
 
 		return TaskStatus{};
@@ -408,16 +420,16 @@ struct PostReactWrapperT<TRegion, BottomUp> {
 			HeadState& headState = static_cast<HeadState&>(region);
 			SubStates& subStates = static_cast<SubStates&>(region);
 
-			HFSM2_IF_PLANS(region.headStatus(control) |=)
+			// like the top-down order, report the head's own result to the enclosing region
+			const TaskStatus h =
 				headState.deepPostReact(control, event);
+			HFSM2_IF_PLANS(region.headStatus(control) |= h);
 
-			if (control._consumed == false) {
-				const TaskStatus h =
+			if (control._consumed == false)
+				HFSM2_IF_PLANS(region. subStatus(control) |=)
 					subStates.widePostReact(control, event);
-				HFSM2_IF_PLANS(region. subStatus(control) |= h);
 
-				return h;
-			}
+			return h;
 		}
 
 		return TaskStatus{};
